@@ -92,6 +92,9 @@ LINES_W = [
     ["lit: remark (", "w", "lit:)"],
     ["w"],
     ["lit:set system domain-name ", "w", "lit:.net;"],
+    ["lit: neighbor ", "w0", "lit: peer-group ", "w0", "lit:-", "w1"],
+    ["lit:vrf ", "w0", "lit: description ", "w0", "lit:->", "w1", "lit: ", "w1"],
+    ["lit: match community ", "w1", "lit:_", "w0", "lit: ", "w0"],
 ]
 
 AS_POOL = ["64999", "4200000123", "64700", "23456", "65123", "70000"]
@@ -435,9 +438,18 @@ def lit_line(text, eol="\n"):
 def expand(r, pattern, ctx):
     """pattern: list of 'lit:text' | role names  ->  line dict.  ctx supplies the pools."""
     segs = []
+    fixed = {}
     for p in pattern:
         if p.startswith("lit:"):
             segs.append(["lit", p[4:]])
+        elif p in ("w0", "w1"):
+            if p not in fixed:
+                i = r.randrange(len(ctx["words"]))
+                if p == "w1" and "w0" in fixed and len(ctx["words"]) > 1:
+                    i = r.choice([j for j in range(len(ctx["words"])) if j != fixed["w0"][1]])
+                w = ctx["words"][i]
+                fixed[p] = (w if r.random() < 0.6 else w.lower(), i)
+            segs.append(["w", fixed[p][0], {"w": fixed[p][1]}])
         elif p in ("a4", "a4p"):
             v = r.choice(ctx["a4"])
             segs.append(["a4", tok4(r, v, r.choice([8, 16, 24, 30, 32]) if p == "a4p" else None), {"v": v}])
